@@ -14,45 +14,45 @@ func prop(id, expl, notCovered string, extra ...string) {
 
 func init() {
 	prop("C01", "Static necessary conditions of codec round-trip: escape tables cover every structural byte of the paired reader, the empty-string sentinel is shared, keys/bytes are not routed raw or through a text escaper, raw codec width/kind duality, and marshal/unmarshal tables of every generated type and hand-written envelope are dual.",
-		"all value-level behaviour: float formatting, integer extremes, NaN identity, the top-level-primitive heuristic, correctness of net/url and easyjson.")
-	prop("C02", "The client half and the server half of every Rest.li method are siblings that must agree: method constant, HTTP verb (checked against the router's own inference table), envelope keys, request/response types, created-id header symmetry, resource path writer/reader pairing in generated bindings.",
-		"anything depending on key content on the wire, RawPath vs Path, ServeMux and the HTTP stack.")
+		"all value-level behaviour: float formatting beyond 'shortest 64-bit form, escaped in ROR2', integer extremes, NaN identity, the top-level-primitive heuristic, correctness of net/url and easyjson.")
+	prop("C02", "The client half and the server half of every Rest.li method are siblings that must agree: method constant, HTTP verb (checked against the router's own inference table), envelope keys, request/response types, created-id header symmetry, resource path writer/reader pairing in generated bindings; the server reads the request path only in its encoded form and the client never rebuilds or re-encodes the URL it formatted; JSON member names are unescaped by the lexer.",
+		"anything depending on key content on the wire beyond those encode/decode-once conditions; ServeMux and the HTTP stack.")
 	prop("C03", "The protocol fixes literal tables (delimiters, reserved names, headers, special float strings); the code's tables, extracted by constant folding, must equal reference tables taken from the Rest.li 2.0 protocol text; headers are set on every exchange; unknown fields are skipped.",
 		"that whole documents parse to the same tree under an independent reference parser (a differential oracle is a different technique family); alternative legal escapes; number formatting.")
-	prop("C04", "R04.1 is a proof (abstract interpretation, all obligations discharged) that no input can make the ROR2 cursor reader index or slice out of bounds.  The other rules decide, on every path/site: no unchecked assertion or reflect misuse on decoded data, every rejection before resource code is a 4xx error response, reader scope balance, nil-guarded dereferences, de-tunnelled requests always carry a body.",
+	prop("C04", "R04.1 is a proof (abstract interpretation, all obligations discharged) that no input can make the ROR2 cursor reader index or slice out of bounds.  The other rules decide, on every path/site: no unchecked assertion or reflect misuse on decoded data, every rejection before resource code is a 4xx error response, reader scope balance, nil-guarded dereferences, de-tunnelled requests always carry a body, no allocation size is derived from a peer-controlled length field.",
 		"termination of the cursor loops; panics inside easyjson/net/url/mime; resource exhaustion.",
 		"R04.1 trusted base: the transfer functions of the A-slack domain, Go slice semantics, class invariants proved over every write to ror2Reader.pos in the package")
 	prop("C05", "The router's decision is a finite table written as nested switch/if: R05.1 extracts it from the source by interpreting the fragment over all 4480 combinations of the request atoms and compares with the protocol table (exhaustive).  Other rules: negative space before filters/resource code, filter order and context, mount prefix flow, ServeMux subtree patterns, Handler() deep copy, method-name table.",
-		"path splitting on hostile paths beyond the atoms; RawPath/Path choice; the ServeMux implementation.")
-	prop("C06", "Reader scope stack balanced on every nesting path (so reported paths are right), record accounting protocol, unknown fields skipped in every record callback (sentinel interpreted centrally), required lists exact for generated records, lenient client guard.",
+		"path splitting on hostile paths beyond the atoms; the ServeMux implementation.")
+	prop("C06", "Reader scope stack balanced on every nesting path (so reported paths are right), record accounting protocol, unknown fields skipped in every record callback (sentinel interpreted centrally), required lists exact for generated records and never aliased between records, only the outermost record is 'at input start' in every reader, lenient client guard.",
 		"that the set and paths reported are right for a particular document; order independence only structurally.",
 		"error-return exits are exempt from scope pairing: a reader is unusable after an error")
-	prop("C07", "The writer and the readers consult the exclusion spec on every key before the callback; envelope depths passed by each Register* equal the nesting depth derived from the request envelope; client marshalers reset the scope for nested entities; generated bindings pass the right spec to the right call; partial updates check fields before writing.",
-		"the matcher (genericMatches) on arbitrary specs and paths — recursion over runtime slices is not a finite table.")
+	prop("C07", "The writer and the readers consult the exclusion spec on every key before the callback; envelope depths passed by each Register* equal the nesting depth derived from the request envelope; client marshalers reset the scope for nested entities; generated bindings pass the right spec to the right call; partial updates check fields before writing; in the matcher, the path head is recomputed after every advance and a negative answer is given only after both the wildcard and the literal entry were consulted.",
+		"the matcher's verdict on an arbitrary spec and path as a value — recursion over runtime slices is not a finite table; only those two necessary conditions of it are decided.")
 	prop("C08", "No store to an error object not allocated locally; optional fields dereferenced only under a nil test; default status table; every implementation error wrapped; resource-provided code runs under recover; client maps error responses by the same header constant.",
 		"equality of the delivered error with the original as values; concurrent sharing beyond the no-write rule.")
-	prop("C09", "Map-order dependence is a shape: every range over a map reachable from serialization/hashing entry points falls in an accepted order-insensitive idiom, the sorting sinks sort ascending on the key, no ambient nondeterminism reaches output.",
+	prop("C09", "Map-order dependence is a shape: every range over a map reachable from serialization/hashing entry points falls in an accepted order-insensitive idiom, the sorting sinks sort ascending on the key, no ambient nondeterminism reaches output, and the serialization packages keep no pool, cache or memo between uses.",
 		"byte identity of equal values as such (float formatting, -0); cross-process identity beyond 'no map order, no ambient input'.")
-	prop("C10", "Equals compares every field once with the helper matching the field type, the hash folds a subset of the compared fields under the same nil tests, float hashing canonicalises what == identifies, helper soundness (length first, nil handling), hash purity.",
-		"symmetry/transitivity as relations over values; NaN.")
-	prop("C11", "Per generated type: union exactly-one guards on both sides, fixed length guard dominates copy, enum not-found edges, partial-update delete/set tables; the field legality predicate is evaluated over all 16 input combinations (exhaustive).",
+	prop("C10", "Equals compares every field once with the helper matching the field type, the hash folds a subset of the compared fields under the same nil tests, float hashing canonicalises what == identifies, helper soundness (length first, nil handling, nil and empty not distinguished), hash purity, generated Equals symmetric in shape (no condition over one operand only).",
+		"symmetry/transitivity as relations over values beyond the shape condition; NaN.")
+	prop("C11", "Per generated type: union exactly-one guards on both sides, fixed length guard dominates copy, enum not-found edges, partial-update delete/set tables, delegated delete verdicts of included records returned unless they are the sentinel; the field legality predicate is evaluated over all 16 input combinations (exhaustive).",
 		"that every constraint-satisfying value is accepted in both directions; round-trip of patches.")
-	prop("C12", "Every corpus manifest's generated output type-checks against the current runtime; the checked-in bindings equal the current generator's output; no Go map iteration order reaches emission in the generator source; structural regularities per declared type/method.",
+	prop("C12", "Every corpus manifest's generated output type-checks against the current runtime; the checked-in bindings equal the current generator's output; no Go map iteration order reaches emission in the generator source; the package-cycle search writes nothing to the registry; structural regularities per declared type/method.",
 		"totality outside the corpus; byte-determinism across processes as such (R12.3 is its necessary condition).",
 		"[G] rules run the repository's generator as a build step on /verif/corpus manifests; the deciding step is static (type checker + rules over the generated source)")
-	prop("C13", "For every defaulted field of every corpus record: populateLocalDefaultValues assigns under field==nil a literal equal to the manifest's, decoding and construction reach every default including inherited ones, assigned values are fresh.",
+	prop("C13", "For every defaulted field of every corpus record: populateLocalDefaultValues assigns under field==nil a literal equal to the manifest's (bytes defaults compared as bytes), decoding and construction reach every default including inherited ones, assigned values are fresh.",
 		"that a decoded complex default equals the literal as a value (C01's business).")
-	prop("C14", "Encoder and decoder use the same header/content-type constants; every successful de-tunnelling restores method, query, RequestURI and a non-nil body and removes the override header; malformed encodings reach an error return; the threshold comparison is exact; untunnelled requests are untouched.",
+	prop("C14", "Encoder and decoder use the same header/content-type constants; every successful de-tunnelling restores method, query, RequestURI and a non-nil body and removes the override header; malformed encodings reach an error return (and the missing-body test is live); the encoded body does not alias pooled memory; the threshold comparison is exact; untunnelled requests are untouched.",
 		"survival of arbitrary bytes through mime/multipart framing; boundary collisions.")
-	prop("C15", "Frame of URL construction: provenance of every returned URL from the resolver's URL, no re-encoding or normalising call between the encoders and the request, the index guard of the prefix test.",
-		"the prefix-stripping arithmetic itself (root segment exactly once, trailing slash, prefix-of-root) — values; weakest claim of the set.")
-	prop("C16", "Response entries are filed under the key returned by the locator, unknown keys are errors, duplicates are rejected before the request is built, the same key set is encoded and used for correlation, hash/equality pairing per key kind, ids sorted once each.",
+	prop("C15", "Frame of URL construction: provenance of every returned URL from the resolver's URL, no re-encoding, rebuilding or normalising between the encoders and the request, the resolver's URL copied and never written through, the index guard of the prefix test, and the root resource matched only with an end-anchored idiom on a slash-normalised context path.",
+		"the prefix-stripping arithmetic as a value beyond those idiom conditions (contexts holding the root as a non-final segment are unspecified by the property); weakest claim of the set.")
+	prop("C16", "Response entries are filed under the key returned by the locator, unknown keys are errors, duplicates are rejected before the request is built, the same key set is encoded and used for correlation, hash/equality pairing per key kind with complex keys recognised before simple keys, ids sorted once each and never memoised across mutations.",
 		"hash collisions and key contents; that Equals on keys is the right equivalence.")
-	prop("C17", "Inventory of shared state: every package-level variable is immutable-after-init, a sync type or lock-protected; the routing tree has no writer reachable from ServeHTTP; per-request state is fresh; no write to resource error objects; D2 snapshots copy-on-write.",
+	prop("C17", "Inventory of shared state: every package-level variable is immutable-after-init, a sync type or lock-protected; the routing tree has no writer reachable from ServeHTTP; per-request state is fresh (request-time closures write no variable captured at registration time; pooled objects do not escape their Put); no write to resource error objects or to the resolver's URL; D2 snapshots copy-on-write.",
 		"races inside user code/net/http/zk; atomicity of compound sequences; 'same outcome as a serial execution' as such.")
 	prop("C18", "The orderings inside each lazymap function that each clause needs: publish before release, arm before publish, wait before read, never return the placeholder, unconditional overwrite in Store, compute at one site on the !loaded edge.",
 		"the schedule quantifier itself (linearizability is model checking's job); blocking if f panics.")
-	prop("C19", "Copy-on-write of URI snapshots, ignored events return the parameter untouched, delete/update touch exactly one path, selection frame (only announced hosts of the first scheme with a choice, error instead of nil URL).",
+	prop("C19", "Copy-on-write of URI snapshots (map and announced Uri values: no store through a *Uri outside its decoder), ignored events return the parameter untouched, delete/update touch exactly one path, selection frame (only announced hosts of the first scheme with a choice, error instead of nil URL).",
 		"proportionality to weights, zero-weight clause, the fold over histories as such.")
 	prop("C20", "Effect analysis over the call graph from the generator entry points: every reachable destructive filesystem call matches a row confining it to generator-owned names (suffix guard, manifest constant, empty-dir guard, temp file provenance); forbidden calls absent; owned suffix cannot collide with user .go files.",
 		"idempotence and 'regeneration reproduces the same files' (C12); symlinks; permission errors.")
